@@ -941,3 +941,23 @@ Proof.
   - rewrite pstep_cl, C. reflexivity.
   - rewrite pstep_cl, C. reflexivity.
 Qed.
+
+(* ------------------------------------------------------------------ linearizability observable *)
+(* what [obs_linearizable] (interleaving tier of the harness) decides: the observation equals the
+   model's outcome on one of the candidate SEQUENTIAL histories pre ++ a :: post *)
+Theorem obs_linearizable_sound : forall cands t,
+  obs_linearizable cands t = Nn 1 -> exists c, In c cands /\ tr_eqb (lin_obs c) t = true.
+Proof.
+  intros cands t H. unfold obs_linearizable in H.
+  destruct (existsb (fun c => tr_eqb (lin_obs c) t) cands) eqn:E; [|discriminate].
+  apply existsb_exists in E. exact E.
+Qed.
+Theorem lin_obs_is_sequential : forall pre a post,
+  exists xa tpost,
+    trace init (pre ++ a :: post) = trace init pre ++ (a, xa) :: tpost /\
+    lin_obs (pre, a, post) =
+      Nd (map (fun x => lin_out_tr (snd x)) (trace init pre)
+          ++ map (fun x => lin_out_tr (snd x)) tpost ++ [lin_out_tr xa]).
+Proof.
+  intros pre a post. eexists. eexists. split; [rewrite trace_app; reflexivity | reflexivity].
+Qed.
